@@ -36,7 +36,7 @@ FILL = ['fill', 'market', 'path']
 
 
 def matching_cfg(K, N, R, liq=False, props=None):
-    inv = ["NoMissedFill", "NoMissedInRange", "TempFollowsPath", "TypeOK"] + (["LiqEffect"] if liq else [])
+    inv = ["NoMissedFill", "NoMissedInRange", "TempFollowsPath", "SkipBranchesDead", "TypeOK"] + (["LiqEffect"] if liq else [])
     prop = ["FillAtFirstReach", "NeverBeforeSubmit", "FinalIsFinal", "PathOrder", "ReactionAfterFill"] + \
            (["LiqIff", "LiqOnlyInCheck"] if liq else [])
     if props is not None:
@@ -162,8 +162,12 @@ def vivo_items(ctx, n, check, sims=('step', 'fast'), id0=1, hooks_bias=False):
                    p_edit=r.choice([0.0, 0.15, 0.4]), p_cancel=r.choice([0.1, 0.3]), entry_every=r.choice([5, 7, 11]),
                    p_liquidate=r.choice([0.0, 0.03]), p_edit_on_reduced=r.choice([0.0, 0.3, 0.8]),
                    exits_in=r.choice(['on_open', 'mixed'] if hooks_bias else ['go', 'on_open', 'mixed']),
-                   sl_dist=r.choice([(1, 3), (3, 6)]), tp_dist=r.choice([(1, 3), (2, 5)]),
                    tick=1.0 if not real else 0.37)
+        # exits declared together with the entries must lie beyond every entry row (rows are within 2 ticks of the
+        # price): an exit on the wrong side of the fill makes the strategy layer flip the position endlessly
+        far = pol['exits_in'] != 'on_open'
+        pol['sl_dist'] = r.choice([(3, 6), (4, 5)] if far else [(1, 3), (3, 6)])
+        pol['tp_dist'] = r.choice([(3, 5), (4, 7)] if far else [(1, 3), (2, 5)])
         if real:
             walk = dict(kind='real', n=n_min, seed=ctx.seed * 31 + i, vol=0.004)
         else:
@@ -181,17 +185,20 @@ def run_vivo(ctx, items, label):
     for it, r in zip(items, res):
         if r[0] == 'EXC':
             raise Machinery("in-vivo worker failed: %s" % r[1])
-        traces.append(r[0])
         stats.append(r[1])
+        if r[0] is not None:
+            traces.append(r[0])
     verdicts, results = tlc.validate_traces("TraceMatching", "TraceMatching.cfg", traces, ctx.sub("tv-" + label), parts=14)
     by = {it['id']: it for it in items}
     nb = report(ctx, verdicts, lambda tid: {'kind': 'vivo', 'item': by[tid]}, label)
     agg = {'runs': len(items), 'fills': sum(s['fills'] for s in stats), 'cancels': sum(s['cancels'] for s in stats),
            'market_orders': sum(s['markets'] for s in stats), 'minutes_or_chunks': sum(s['minutes'] for s in stats),
-           'runs_ending_in_a_jesse_exception': sum(1 for s in stats if s['exc']),
+           'runs_ending_in_a_jesse_exception': sum(1 for s in stats if s['exc'] and not s.get('hang')),
+           'runs_dropped_because_the_strategy_livelocked_jesse': sum(1 for s in stats if s.get('hang')),
            'liquidations': sum(s['liq'] for s in stats), 'violating_clauses': nb,
            'tlc_states': sum(r.generated for r in results),
            'events_consumed': sum(v[0] for v in verdicts.values())}
+    agg['runs'] = len(traces)
     for it, s in zip(items, stats):
         if s['fills'] >= 3 and s['cancels'] >= 1:
             ctx.nontrivial.add((label, it['policy']['seed'], it['cfg']['type'], it['fast'], it['tf']))
